@@ -427,10 +427,12 @@ func c13Eval(res *mc.Result, l *mc.Local, c c13VCase, via string, run func(c13VC
 		} else {
 			// converse direction: never an alarm (the handler is free to have further rules)
 			l.Count("diag_denied_without_listed_rule", 1)
-			if c.Batch == "limit-only" {
-				l.Count("diag_denied_batch_in_limits_only", 1)
-			} else if len(c.Shape.InitCPU) > 0 || len(c.Shape.Overhead) > 0 {
+			qa, qb := c13CPURequests(c.Shape)
+			if q := c13QoSClass(c.QoS); (q == "LSR" || q == "LSE") && c13PositiveWhole(qa) != c13PositiveWhole(qb) {
+				// init container / overhead: whole under one reading of "the pod requests", not under the other
 				l.Count("diag_denied_whole_cpu_readings_disagree", 1)
+			} else if c.Batch == "limit-only" {
+				l.Count("diag_denied_batch_in_limits_only", 1)
 			} else {
 				l.Count("diag_denied_other", 1)
 				res.Diag(fmt.Sprintf("denied although no listed rule is violated: %s reason=%q", c.String(), reason))
